@@ -212,10 +212,14 @@ impl M {
             .ok_or_else(|| format!("no rng named {name}"))?;
         let pos0 = rng.pos;
         rng.draws.clear();
-        let r = f(self, &mut rng);
+        // a panic inside the library call must not lose the generator (later commands would fail for a harness reason)
+        let r = catch_unwind(AssertUnwindSafe(|| f(self, &mut rng)));
         *reply_draws = json!({"rng": name, "pos": pos0, "lens": rng.take_draws()});
         self.rngs.insert(name, rng);
-        r
+        match r {
+            Ok(v) => v,
+            Err(p) => std::panic::resume_unwind(p),
+        }
     }
 
     fn ksf_ref(&self, c: &Value) -> Result<Option<&KsfT>, String> {
